@@ -103,6 +103,10 @@ def drive(tier):
         tw = r.choice(tweaks)
         fa = CBloomFilter(r.choice([3, 10, 50]), r.choice([0.01, 0.001]), tw, 1)
         fb = CBloomFilter(r.choice([3, 10, 50]), r.choice([0.01, 0.1]), tw if pair % 2 == 0 else r.choice(tweaks), 2)
+        if pair % 2 == 1:
+            # both arrived from the wire (two deserialised objects kept alive share nothing)
+            fa = CBloomFilter.deserialize(fa.serialize())
+            fb = CBloomFilter.deserialize(fb.serialize())
         shared = [gen.rbytes(r, 8) for _ in range(3)]
         ta, tb = R.new_tid(), R.new_tid()
         ka = kb = 0
